@@ -370,4 +370,170 @@ theorem flushToL0_table (noLevel : Bool) (newIdx : Nat) (wf : Bool) :
         [("name := maxLevelIdx(L0)+1", newIdx), ("PushBack L0", newIdx), ("writeTable L0", newIdx)]) := by
   cases noLevel <;> cases wf <;> rfl
 
+/-! ### `levelManager.recover` -/
+
+section Recover
+variable {φ ν η ι β : Type}
+
+/-- `for len(lm.levels) <= level { append an empty level }` -/
+def grow (level : Nat) (levels : List (List (Nat × β × ι))) : List (List (Nat × β × ι)) :=
+  levels ++ List.replicate (level + 1 - levels.length) []
+
+theorem grow_loop (level : Nat)
+    (exit : List ν → Nat → List (List (Nat × β × ι)) → List (String × ν) → Option (Nat × List (List (Nat × β × ι)) × List (String × ν)))
+    (fuel : Nat) (d : List ν) (m : Nat) (levels : List (List (Nat × β × ι))) (ev : List (String × ν))
+    (hf : level + 1 - levels.length ≤ fuel) :
+    GenLevel.recover.loop8196 level exit fuel d m levels ev = exit d m (grow level levels) ev := by
+  induction fuel generalizing levels with
+  | zero =>
+    have : level + 1 - levels.length = 0 := by omega
+    simp [GenLevel.recover.loop8196, grow, this]
+  | succ f ih =>
+    rw [GenLevel.recover.loop8196]
+    by_cases hl : levels.length ≤ level
+    · simp only [hl, decide_true, ↓reduceIte]
+      rw [ih (levels ++ [[]]) (by simp; omega)]
+      congr 1
+      simp only [grow, List.length_append, List.length_singleton, List.append_assoc]
+      have : level + 1 - levels.length = (level + 1 - (levels.length + 1)) + 1 := by omega
+      rw [this, List.replicate_succ]
+      simp
+    · have : level + 1 - levels.length = 0 := by omega
+      simp [hl, grow, this]
+
+theorem getD_grow (level L : Nat) (levels : List (List (Nat × β × ι))) : (grow level levels).getD L [] = levels.getD L [] := by
+  simp only [grow, List.getD_eq_getElem?_getD]
+  by_cases h : L < levels.length
+  · rw [List.getElem?_append_left h]
+  · rw [List.getElem?_append_right (by omega)]
+    have h2 : levels[L]? = none := List.getElem?_eq_none (by omega)
+    rw [h2]
+    by_cases h3 : L - levels.length < level + 1 - levels.length
+    · simp [List.getElem?_replicate, h3]
+    · simp [List.getElem?_replicate, h3]
+
+theorem length_grow (level : Nat) (levels : List (List (Nat × β × ι))) : level < (grow level levels).length := by
+  simp only [grow, List.length_append, List.length_replicate]; omega
+
+/-- what recovering one table file does to (largest version, levels) -/
+def stepFile (plevel pidx : ν → Nat) (indexOf : ν → ι) (entriesOf : ν → List η) (ver : η → Nat) (mkFilter : List η → β)
+    (st : Nat × List (List (Nat × β × ι))) (file : ν) : Nat × List (List (Nat × β × ι)) :=
+  ((entriesOf file).foldl (fun m e => max m (ver e)) st.1,
+   (grow (plevel file) st.2).set (plevel file)
+     ((grow (plevel file) st.2).getD (plevel file) [] ++ [(pidx file, mkFilter (entriesOf file), indexOf file)]))
+
+theorem foldr_maxver {R : Type} (ver : η → Nat) (exit : List ν → Nat → List (List (Nat × β × ι)) → List (String × ν) → Option R)
+    (es : List η) (d : List ν) (m : Nat) (levels : List (List (Nat × β × ι))) (ev : List (String × ν)) :
+    List.foldr (fun entry kont8195 => fun (dbFiles : List ν) (maxVersion : Nat) (levels : List (List (Nat × β × ι))) (ev : List (String × ν)) =>
+        kont8195 dbFiles (max maxVersion (ver entry)) levels ev) exit es d m levels ev =
+      exit d (es.foldl (fun m e => max m (ver e)) m) levels ev := by
+  induction es generalizing m with
+  | nil => rfl
+  | cons e es ih => simp only [List.foldr_cons, List.foldl_cons]; exact ih _
+
+theorem foldr_files (plevel pidx : ν → Nat) (indexOf : ν → ι) (entriesOf : ν → List η) (ver : η → Nat) (mkFilter : List η → β)
+    (names : List ν) (d : List ν) (m : Nat) (levels : List (List (Nat × β × ι))) (ev : List (String × ν)) :
+    List.foldr
+      (fun file kont4100 => fun (dbFiles : List ν) (maxVersion : Nat) (levels : List (List (Nat × β × ι))) (ev : List (String × ν)) =>
+        List.foldr
+          (fun entry kont8195 => fun (dbFiles : List ν) (maxVersion : Nat) (levels : List (List (Nat × β × ι))) (ev : List (String × ν)) =>
+            kont8195 dbFiles (max maxVersion (ver entry)) levels ev)
+          (fun dbFiles maxVersion levels ev =>
+            GenLevel.recover.loop8196 (plevel file)
+              (fun dbFiles maxVersion levels ev =>
+                kont4100 dbFiles maxVersion
+                  (levels.set (plevel file)
+                    (levels.getD (plevel file) [] ++ [(pidx file, mkFilter (entriesOf file), indexOf file)]))
+                  ev)
+              (plevel file + 1) dbFiles maxVersion levels ev)
+          (entriesOf file) dbFiles maxVersion levels ev)
+      (fun dbFiles maxVersion levels ev => some (maxVersion, levels, ev)) names d m levels ev =
+    some ((names.foldl (stepFile plevel pidx indexOf entriesOf ver mkFilter) (m, levels)).1,
+          (names.foldl (stepFile plevel pidx indexOf entriesOf ver mkFilter) (m, levels)).2, ev) := by
+  induction names generalizing m levels with
+  | nil => rfl
+  | cons f rest ih =>
+    simp only [List.foldr_cons, List.foldl_cons]
+    rw [foldr_maxver, grow_loop _ _ _ _ _ _ _ (by omega)]
+    exact ih _ _
+
+theorem foldr_dir (isDir isDB isTmp : φ → Bool) (fname : φ → ν) {R : Type}
+    (exit : List ν → Nat → List (List (Nat × β × ι)) → List (String × ν) → Option R)
+    (files : List φ) (d : List ν) (m : Nat) (levels : List (List (Nat × β × ι))) (ev : List (String × ν)) :
+    List.foldr
+      (fun file kont4099 => fun (dbFiles : List ν) (maxVersion : Nat) (levels : List (List (Nat × β × ι))) (ev : List (String × ν)) =>
+        if (!isDir file && isDB file) = true then
+          if (!isDir file && isTmp file) = true then
+            kont4099 (dbFiles ++ [fname file]) maxVersion levels (ev ++ [("os.Remove (leftover tmp)", fname file)])
+          else kont4099 (dbFiles ++ [fname file]) maxVersion levels ev
+        else
+          if (!isDir file && isTmp file) = true then
+            kont4099 dbFiles maxVersion levels (ev ++ [("os.Remove (leftover tmp)", fname file)])
+          else kont4099 dbFiles maxVersion levels ev) exit files d m levels ev =
+      exit (d ++ (files.filter (fun f => !isDir f && isDB f)).map fname) m levels
+        (ev ++ (files.filter (fun f => !isDir f && isTmp f)).map (fun f => ("os.Remove (leftover tmp)", fname f))) := by
+  induction files generalizing d ev with
+  | nil => simp
+  | cons f rest ih =>
+    simp only [List.foldr_cons, List.filter_cons]
+    by_cases h1 : (!isDir f && isDB f) = true <;> by_cases h2 : (!isDir f && isTmp f) = true <;>
+      simp only [h1, h2, ↓reduceIte, Bool.false_eq_true] <;> rw [ih] <;> simp
+
+/-- the translated `levelManager.recover` when nothing fails: the `.db` files of the directory (not the sub-directories), in the
+    order `slices.Sort` puts their names, each give one handle — index from the file name, filter built from the entries of
+    THIS file, index block of this file — appended to the level its name says; the largest version of all their entries is
+    returned; leftover `.tmp` files are removed and nothing else is -/
+theorem recover_table (isDir isDB isTmp : φ → Bool) (fname : φ → ν) (sortN : List ν → List ν) (plevel pidx : ν → Nat)
+    (indexOf : ν → ι) (entriesOf : ν → List η) (ver : η → Nat) (mkFilter : List η → β) (files : List φ) :
+    GenLevel.recover isDir isDB isTmp fname sortN plevel pidx (fun _ => false) (fun _ _ => false) indexOf entriesOf ver mkFilter false files [] =
+      let names := (files.filter (fun f => !isDir f && isDB f)).map fname
+      let removed := (files.filter (fun f => !isDir f && isTmp f)).map (fun f => ("os.Remove (leftover tmp)", fname f))
+      if names.length = 0 then some (0, [], removed)
+      else some (((sortN names).foldl (stepFile plevel pidx indexOf entriesOf ver mkFilter) (0, [])).1,
+                 ((sortN names).foldl (stepFile plevel pidx indexOf entriesOf ver mkFilter) (0, [])).2, removed) := by
+  unfold GenLevel.recover
+  simp only [Bool.false_eq_true, ↓reduceIte]
+  rw [foldr_dir]
+  simp only [List.nil_append]
+  by_cases h0 : ((files.filter (fun f => !isDir f && isDB f)).map fname).length = 0
+  · simp only [h0, decide_true, ↓reduceIte]
+  · simp only [h0, decide_false, Bool.false_eq_true, ↓reduceIte]
+    rw [foldr_files]
+
+/-- the largest version `recover` returns is the largest version of any entry of any recovered table -/
+theorem stepFile_max (plevel pidx : ν → Nat) (indexOf : ν → ι) (entriesOf : ν → List η) (ver : η → Nat) (mkFilter : List η → β)
+    (names : List ν) (st : Nat × List (List (Nat × β × ι))) :
+    (names.foldl (stepFile plevel pidx indexOf entriesOf ver mkFilter) st).1 =
+      (names.flatMap entriesOf).foldl (fun m e => max m (ver e)) st.1 := by
+  induction names generalizing st with
+  | nil => rfl
+  | cons f rest ih => simp only [List.foldl_cons, List.flatMap_cons, List.foldl_append]; rw [ih]; rfl
+
+/-- the handles of a level after recovery are exactly those of the table files named into that level, each with the filter
+    built from its own entries -/
+theorem stepFile_handles (plevel pidx : ν → Nat) (indexOf : ν → ι) (entriesOf : ν → List η) (ver : η → Nat) (mkFilter : List η → β)
+    (names : List ν) (st : Nat × List (List (Nat × β × ι))) (L : Nat) :
+    ((names.foldl (stepFile plevel pidx indexOf entriesOf ver mkFilter) st).2).getD L [] =
+      st.2.getD L [] ++ ((names.filter (fun n => plevel n == L)).map fun n => (pidx n, mkFilter (entriesOf n), indexOf n)) := by
+  induction names generalizing st with
+  | nil => simp
+  | cons f rest ih =>
+    simp only [List.foldl_cons]
+    rw [ih]
+    simp only [stepFile, List.filter_cons]
+    have hlen := length_grow (β := β) (ι := ι) (plevel f) st.2
+    by_cases hL : plevel f = L
+    · subst hL
+      have hset : ∀ (l : List (List (Nat × β × ι))) (i : Nat) (v : List (Nat × β × ι)), i < l.length → (l.set i v).getD i [] = v := by
+        intro l i v hi; simp [List.getD_eq_getElem?_getD, hi]
+      rw [hset _ _ _ hlen, getD_grow]
+      simp
+    · have hb : (plevel f == L) = false := by simpa using hL
+      simp only [hb, Bool.false_eq_true, ↓reduceIte]
+      congr 1
+      simp only [List.getD_eq_getElem?_getD, List.getElem?_set_ne hL]
+      simpa [List.getD_eq_getElem?_getD] using getD_grow (β := β) (ι := ι) (plevel f) L st.2
+
+end Recover
+
 end LevelTie
